@@ -29,6 +29,12 @@ pub open spec fn lenient_kw_at(env: Seq<char>, i: int, kw: Seq<char>) -> bool {
         && forall|j: int| 0 <= j < kw.len() && i + j < env.len() ==> env[i + j] == kw[j])
 }
 
+pub open spec fn spaces_end(env: Seq<char>, sp: Seq<char>, i: int) -> int
+    decreases env.len() - i
+{
+    if sp.len() > 0 && kw_at(env, i, sp) { spaces_end(env, sp, i + sp.len()) } else { i }
+}
+
 pub open spec fn mid_empty(m: MidParseResult) -> bool {
     m.budget is None && m.term is None && m.punctuation is None && m.stamp is None && m.truth is None
 }
@@ -72,6 +78,15 @@ impl<'a> ParseState<'a, &'a str> {
     pub open spec fn at_head(&self, kw: Seq<char>) -> bool {
         self.head + kw.len() <= self.env@.len()
             && self.env@.subrange(self.head as int, self.head + kw.len()) == kw
+    }
+    /// C09 reference: the position reached from `i` by skipping every occurrence of the space
+    /// keyword that starts there (any number of them)
+    pub open spec fn after_spaces(&self, i: int) -> int {
+        spaces_end(self.env@, self.format.space.parse@, i)
+    }
+    /// the same state with the cursor at `h`
+    pub open spec fn with_head(&self, h: int) -> Self {
+        ParseState { head: h as usize, ..*self }
     }
     /// C09 mechanism: the cursor does not stand on the format's space keyword
     pub open spec fn no_space_here(&self) -> bool {
@@ -231,4 +246,60 @@ pub open spec fn stamp_try_order(f: &NarseseFormat<&str>) -> Seq<Seq<char>> {
 }
 pub open spec fn stamp_kind(k: int, s: Stamp) -> bool {
     if k == 0 { s is Fixed } else if k == 1 { s is Past } else if k == 2 { s is Present } else { s is Future }
+}
+
+/// nar_dev_utils' `[char]::starts_with_str` as a local trait of the same name (it shadows the glob
+/// import; provided trait methods of a dependency cannot be specified directly): ASSUMED (A2) to
+/// compute the lenient prefix test described at lenient_kw_at
+pub trait StartsWithStr {
+    spec fn vx_chars(&self) -> Seq<char>;
+    fn starts_with_str(&self, needle: &str) -> (r: bool)
+        ensures r == lenient_kw_at(self.vx_chars(), 0, needle@);
+}
+impl StartsWithStr for [char] {
+    open spec fn vx_chars(&self) -> Seq<char> { self@ }
+    #[verifier::external_body]
+    fn starts_with_str(&self, needle: &str) -> (r: bool) { unimplemented!() }
+}
+/// R27: `<13 keywords>.into_iter().any(closure)` -> this loop (verified): true iff the closure
+/// - which decides the ghost predicate `p` - holds for one of them, tried in order
+pub fn vx_any13<'k, F: Fn(&'k str) -> bool>(arr: [&'k str; 13], f: F, Ghost(p): Ghost<spec_fn(&'k str) -> bool>) -> (r: bool)
+    requires
+        forall|x: &'k str| call_requires(f, (x,)),
+        forall|x: &'k str, b: bool| call_ensures(f, (x,), b) ==> b == p(x),
+    ensures r == (exists|k: int| 0 <= k < 13 && p(#[trigger] arr@[k])),
+{
+    let mut i: usize = 0;
+    while i < 13
+        invariant i <= 13, forall|x: &'k str| call_requires(f, (x,)),
+            forall|x: &'k str, b: bool| call_ensures(f, (x,), b) ==> b == p(x),
+            forall|k: int| 0 <= k < i ==> !p(#[trigger] arr@[k]),
+        decreases 13 - i
+    {
+        if f(arr[i]) { return true; }
+        i = i + 1;
+    }
+    false
+}
+/// the look-ahead on the suffix slice is the look-ahead at `start` of the whole environment
+pub proof fn vx_copula_hint(st: &ParseState<'_, &str>, start: usize, arr: Seq<&str>, r: bool)
+    requires
+        start <= st.env@.len(), arr.len() == 13,
+        forall|k: int| 0 <= k < 13 ==> (#[trigger] arr[k])@ == copula_seq(st.format)[k],
+        r == (exists|k: int| 0 <= k < 13 && lenient_kw_at(st.env@.subrange(start as int, st.env@.len() as int), 0, (#[trigger] arr[k])@)),
+    ensures r == st.copula_at(start as int)
+{
+    let cs = copula_seq(st.format);
+    let sub = st.env@.subrange(start as int, st.env@.len() as int);
+    assert forall|k: int| 0 <= k < 13 implies lenient_kw_at(sub, 0, #[trigger] cs[k]) == lenient_kw_at(st.env@, start as int, cs[k]) by {
+        assert forall|j: int| 0 <= j < cs[k].len() && j < sub.len() implies sub[j] == st.env@[start + j] by {}
+    }
+    if r {
+        let k = choose|k: int| 0 <= k < 13 && lenient_kw_at(sub, 0, (#[trigger] arr[k])@);
+        assert(lenient_kw_at(st.env@, start as int, cs[k]));
+    }
+    if st.copula_at(start as int) {
+        let k = choose|k: int| 0 <= k < 13 && lenient_kw_at(st.env@, start as int, #[trigger] cs[k]);
+        assert(lenient_kw_at(sub, 0, arr[k]@));
+    }
 }
